@@ -998,8 +998,9 @@ PROPS["C28"] = dict(
     corr_module="Corr.C28",
     streams={"hist": dict(runner="C28_run", in_t="C28_in", out_t="C28_out", shard=3, imports=["Model.Store", "Model.Reads", "Model.Persist"])},
     n_quick=12, n_thorough=360,
+    corpus_seeds=[(28001, 2)],   # log growth inside a commit (lex-batch record), plain and after a reopen: caught a seeded reordering in update_embedded_lex_snapshot (catalog filled after append_lex_batch)
     harness_timeout=3000,
-    rule="histories of 6-22 ops on a real memory, three profiles (general; blank / binary frames that break sketch-id density; instant-indexed puts with default options): puts of short text / chunked text >= 2500 chars / whitespace-only / binary payloads, "
+    rule="histories of 6-22 ops on a real memory, three random profiles (general; blank / binary frames that break sketch-id density; instant-indexed puts with default options) and a fourth, steered profile (every fourth history, and the two corpus histories run first): the embedded log is driven adaptively (wal_stats / header_fields hooks: region size, pending bytes, checkpoint position; binary filler puts sized from the measured record overhead) until, with document records pending, the write head is a chosen 0..1200 bytes (swept in steps of 100 across histories) from the region end, so that the lex-batch record flush_tantivy appends INSIDE the commit makes the log region grow (tag log-grew-in-commit; variants: growth in the put just before the commit, two growths 64 -> 128 -> 256 KiB, growth in the commit of a handle reopened with the head near the end); the four-handle comparison runs immediately after that commit and again after the next put + commit; puts of short text / chunked text >= 2500 chars / whitespace-only / binary payloads, "
          "with or without a 4-dimensional embedding, explicit uris reused across frames, track / tag / label options, instant_index on or off, update_frame with and without payload / embedding on live, inactive and missing ids, delete_frame likewise, commit, reopen, exit-without-commit + reopen; "
          "at up to four fully committed points per history the file is byte-copied three times and FOUR handles are read: live, copy reopened read-write, copy opened read-only (Memvid::open_read_only), copy opened after doctor{rebuild_lex_index and/or rebuild_time_index, in half of the points also rebuild_vec_index}; "
          "compared with the model for each handle: frame count, engine documents holding the probe word, vector-index ids, vec enabled, time-index ids, sketch ids in track order (the reopened handles must show the renumbered ids 0..n-1), per-op result / frame_count / next_frame_id, "
@@ -1015,7 +1016,7 @@ PROPS["C28"] = dict(
                "The vector and time-index parts are also derived on the C14 / C15 models (load after persist, doctor rebuild_time_index).",
     level_note="Property as stated is REFUTED in one class, recorded as known finding prefilter-sketch-ids-not-dense (= F-C39-1 seen from Memvid::search: the sketch track stores no frame ids, a reopened handle renumbers its entries, so the pre-filter's candidate set changes whenever some frame has no sketch entry); proved outside it. doctor{rebuild_vec_index} on a memory that has no vector index enables an empty one: vector search then answers [] instead of VecNotEnabled (stated in C28_same_answers_outside_known). "
                "Partial: Tantivy's search (BM25 ranking, tie order, the frame filter), ParsedQuery::evaluate / snippet slices, the sketch test of one entry and the vector ranking are Section variables that answer from what the handle holds - equal sets give equal answers by construction, the four-handle battery on real memories is what ties ranking and tie order to the code; "
-               "the candidate set of find_sketch_candidates is modelled for tracks of at most 500 entries (below the truncation); the legacy LexIndex fallback is not modelled (Tantivy-only memories never have its manifest; when every Tantivy hit is culled search returns LexNotEnabled, the same on all handles); Quiet (nothing pending, not dirty) is the hypothesis 'committed history'.",
+               "the candidate set of find_sketch_candidates is modelled for tracks of at most 500 entries (below the truncation); the legacy LexIndex fallback is not modelled (Tantivy-only memories never have its manifest; when every Tantivy hit is culled search returns LexNotEnabled, the same on all handles); Quiet (nothing pending, not dirty) is the hypothesis 'committed history'. The file image of Model/Persist.v holds the index SETS, no byte offsets: log growth (shift of everything behind the log, adjust_offsets_after_wal_growth patching the TOC's offsets, the order of catalog update and append_lex_batch inside update_embedded_lex_snapshot) is outside the model; for that class the tie is the four-handle oracle on real files, reached on every run by the steered profile and the corpus (tags log-grew-in-commit, room-at-commit:N).",
     trusted_base=["engine oracles: Tantivy search_documents over the engine's documents with the optional frame filter, ParsedQuery::evaluate / snippet slices per hit, QuerySketch::score_entry per sketch entry, VecIndex::search",
                   "oracle inputs read from the implementation: auto-checkpoint timing and extra log records (cfg(memvid_verif) wal_stats hook), number of chunk frames, whether a frame's index text holds the probe word, whether apply_records gave a frame a sketch entry (Memvid::sketches())",
                   "the engine's document set is observed through search for a probe word present in every text payload (top_k 5000, sketch filter off); handles other than the live one are opened on byte copies of the committed file"],
